@@ -15,7 +15,7 @@ TECHNIQUE = ("Coq proof over the reals about the bounding kernels re-translated 
              "contribution histories, cache coherence and range preservation as invariants over arbitrary operation "
              "sequences (generic invariant principle + induction), no-op laws; model tied to the code by translation of the "
              "kernels and a differential correspondence check")
-LEVEL_TEXT = ("Machine-checked proofs (Coq, real-number instance; 51 obligations) that the model of Accumulator/Updater sets "
+LEVEL_TEXT = ("Machine-checked proofs (Coq, real-number instance; 54 obligations) that the model of Accumulator/Updater sets "
               "every managed parameter element to old + bound_upper(reduce(pos)) - bound_lower(reduce(neg)) for every number "
               "and size of pending parts, every binding form (default / five full kernels with optional limits / any of the ten "
               "half kernels in either slot) and every column-wise reduction (apply_spec, update_spec incl. frame and clearing); "
@@ -29,7 +29,9 @@ LEVEL_TEXT = ("Machine-checked proofs (Coq, real-number instance; 51 obligations
               "<= range, reads, update / updatesome / apply / clear, operations on other parameters), also for arbitrary "
               "reductions under the hypothesis on the reduced magnitudes; that sharp dependence never moves an element "
               "further beyond a reached limit (and is not a clamp); that a reduction passed at construction is installed on "
-              "every accumulator and is the one apply_spec uses.  The kernels in the theorems are the definitions generated "
+              "every accumulator and is the one apply_spec uses; that the trainer-level route CellTrainer.update() is exactly one "
+              "module.update(clear=False) however many registered cells share the updater and does nothing for cells "
+              "without an updater (trainer_update_once / _skips / _spec).  The kernels in the theorems are the definitions generated "
               "from the source on every run; the stateful model is validated against the real classes (LinearDense and a "
               "minimal Updatable) by a differential correspondence check; a plain-Python evaluation of the property statement "
               "is the direct oracle.")
@@ -143,13 +145,26 @@ def gen_full(g, smooth):
     return kern, mx, mn
 
 
-def gen_general(rng, malformed):
+def gen_trainer_cfg(rng):
+    """CellTrainer over the dense host: 0-3 cells of the host connection (all sharing its updater), optionally a cell
+    of a second connection with its own updater and a cell whose updater is None"""
+    return {"primary": rng.choice([1, 2, 2, 3, 3, 0]), "extra": rng.random() < 0.45, "none": rng.random() < 0.35}
+
+
+def trainer_cells(case):
+    """the model's view of the trainer: one module id per registered cell (0 = the host connection)"""
+    t = case.get("trainer") or {}
+    return [0] * int(t.get("primary", 0)) + ([1] if t.get("extra") else []) + ([2] if t.get("none") else [])
+
+
+def gen_general(rng, malformed, trainer_route=False):
     """random operation sequence over the whole API.  Two flavours (see module docstring of the design):
     'sharp' cases use dyadic values and only exactly-evaluated kernels/reductions so that the Heaviside gate
     never flips through rounding; 'smooth' cases use arbitrary decimals, power kernels, mean / l2."""
     smooth = rng.random() < 0.6
     g = G(rng, dyadic=not smooth)
-    host = "dense" if rng.random() < 0.3 else "double"
+    host = "dense" if (trainer_route or rng.random() < 0.3) else "double"
+    trainer = gen_trainer_cfg(rng) if host == "dense" and (trainer_route or rng.random() < 0.7) else None
     params = gen_params(g, host)
     ids = [p[0] for p in params]
     sizes = {p[0]: numel(p[1]) for p in params}
@@ -222,7 +237,13 @@ def gen_general(rng, malformed):
                     mx = mn = None
                 ops.append(["full", nm(False), kern, mx, mn])
         elif r < 0.86:
-            ops.append(["update", rng.random() < 0.8])
+            if trainer is not None and rng.random() < (0.75 if trainer_route else 0.4):
+                # the trainer-level route: CellTrainer.update(**kwargs) (applies, never clears)
+                ops.append(["tupdate", rng.choice([None, None, False, True])])
+                if rng.random() < 0.6:
+                    ops.append(["clear"])
+            else:
+                ops.append(["update", rng.random() < 0.8])
         elif r < 0.91:
             k = rng.randint(0, min(2, len(tracked)))
             sel = rng.sample(tracked, k)
@@ -244,13 +265,23 @@ def gen_general(rng, malformed):
             ops.append(["newupdater", list(ids), rng.choice(reds)])
             in_upd = list(ids)
         else:
-            ops.append(["delupdater"] if malformed else ["clear"])
-            if malformed:
+            # without an updater the host's cells are skipped by trainer.update()
+            ops.append(["delupdater"] if (malformed or trainer_route) else ["clear"])
+            if malformed or trainer_route:
                 in_upd = []
+                if trainer_route:
+                    ops.append(["tupdate", None])
+                    ops.append(["newupdater", list(ids), rng.choice(reds)])
+                    in_upd = list(ids)
+    if trainer is not None:
+        ops.append(["tupdate", None])
     ops.append(["update", True])
     ops.append(["update", True])
-    return {"stream": "malformed" if malformed else ("smooth" if smooth else "sharp"), "host": host, "params": params,
-            "ops": ops}
+    c = {"stream": "trainer" if trainer_route else ("malformed" if malformed else ("smooth" if smooth else "sharp")),
+         "host": host, "params": params, "ops": ops}
+    if trainer is not None:
+        c["trainer"] = trainer
+    return c
 
 
 def gen_history(rng, length):
@@ -260,6 +291,9 @@ def gen_history(rng, length):
     mx, mn = g.limit_pair()
     rg = mx - mn
     host = "dense" if rng.random() < 0.3 else "double"
+    trainer = gen_trainer_cfg(rng) if host == "dense" and rng.random() < 0.7 else None
+    if trainer is not None:
+        trainer["primary"] = max(1, trainer["primary"])
     params = gen_params(g, host)[:1]
     n = numel(params[0][1])
     i = params[0][0]
@@ -288,8 +322,15 @@ def gen_history(rng, length):
                     return None
                 return [rng.choice([0.0, scale, round(rng.uniform(0, 1), 3) * scale]) for _ in range(n)]
             ops.append(["add", i, pt(), pt()])
-        ops.append(["update", True] if rng.random() < 0.85 else ["updatesome", [i], True])
-    return {"stream": "history", "host": host, "params": params, "ops": ops}
+        if trainer is not None and rng.random() < 0.5:
+            ops.append(["tupdate", rng.choice([None, False, True])])
+            ops.append(["clear"])
+        else:
+            ops.append(["update", True] if rng.random() < 0.85 else ["updatesome", [i], True])
+    c = {"stream": "history", "host": host, "params": params, "ops": ops}
+    if trainer is not None:
+        c["trainer"] = trainer
+    return c
 
 
 def gen_sharpcase(rng):
@@ -362,7 +403,7 @@ def gen_cases(rng, n):
         elif r == 8:
             cases.append(gen_sharpcase(rng))
         else:
-            cases.append(gen_history(rng, rng.choice([3, 8])))
+            cases.append(gen_general(rng, malformed=False, trainer_route=True))
     return cases
 
 
@@ -454,7 +495,9 @@ def q_op(op):
 
 def q_case(case):
     ps = F.coq_list([f"({p[0]}, {q_t(p[2])})" for p in case["params"]])
-    return f"run_case {ps} {F.coq_list([q_op(o) for o in case['ops']])}"
+    cells = q_names(trainer_cells(case))
+    ops = [f"OpTrainerUpdate FN {cells}" if o[0] == "tupdate" else q_op(o) for o in case["ops"]]
+    return f"run_case {ps} {F.coq_list(ops)}"
 
 
 # ------------------------------------------------------------------ comparison model <-> implementation
@@ -506,12 +549,14 @@ def uses_pow(case):
     return False
 
 
-ASSIGN = ("update", "updatesome", "apply", "setparam")
+ASSIGN = ("update", "updatesome", "apply", "setparam", "tupdate")
 
 
 def compact(op, rec):
     """the implementation's record of one step in the compact form the model prints (UpdaterExec.trace)"""
     out, (ps, u) = rec
+    if op[0] == "tupdate" and out[0] == 0:
+        out = [0, [0]]          # [3, n]: n (applications of the second connection's updater) is judged by the oracle
     small = [] if not u else [[[a[0], len(a[1]), len(a[2]), a[3], a[4]] for a in u[0]]]
     return [out, ps if op[0] in ASSIGN else [], small]
 
@@ -770,6 +815,7 @@ class Oracle:
     def __init__(self, case, report_stale, report_float_nan=False):
         self.case = case
         self.P = {p[0]: list(map(float, p[2])) for p in case["params"]}
+        self.cells = trainer_cells(case)
         self.U = None
         self.fail = None
         self.stale_obs = 0
@@ -839,6 +885,23 @@ class Oracle:
             else:
                 self.fail = fresh_fail
 
+    def judge_trainer_raise(self, j, out):
+        """trainer.update() raised: legitimate only if applying one of the accumulators raises (malformed parts, None
+        limits); otherwise the trainer-level route is broken"""
+        saved = (copy.deepcopy(self.P), copy.deepcopy(self.U))
+        ok = True
+        try:
+            if 0 in self.cells and self.U is not None:
+                for i in self.U:
+                    a, p, n, d = self.expect_apply(j, i, self.P[i])
+                    if d is not None and len(d) != len(self.P[i]):
+                        raise Unjudged
+        except (Unjudged, KeyError, TypeError):
+            ok = False
+        self.P, self.U = saved
+        if ok:
+            self.bad(j, "trainer_update_raised", raised=out[1:], cells=self.cells)
+
     def expect_apply(self, step, i, x):
         a = self.U[i]
         p = self.side_value(step, a, "pos")
@@ -905,6 +968,8 @@ class Oracle:
         U = self.U
         params_after = {i: dec_t(t) for i, t in snap[0]}
         try:
+            if raised and k == "tupdate":
+                self.judge_trainer_raise(j, out)
             if raised:
                 raise Unjudged
             if k == "newupdater":
@@ -977,6 +1042,21 @@ class Oracle:
                             closev(d, got) or any(v != v for v in d + got))):
                         self.bad(j, "output_value", expected=d, got=got, bind=a.bind, red=a.red)
                 self.with_stale_retry(j, body)
+            elif k == "tupdate":
+                # CellTrainer.update(**kwargs): every DISTINCT updater among the registered cells is applied exactly once
+                # (cells without an updater are skipped), nothing is cleared, keyword arguments change nothing
+                def body():
+                    U = self.U
+                    names = list(U.keys()) if (U is not None and 0 in self.cells) else []
+                    for i in names:
+                        self.judge_apply(j, i, self.P[i], params_after[i])
+                        self.P[i] = params_after[i]
+                self.with_stale_retry(j, body)
+                self.checks["trainer_update"] += 1
+                napp = out[1][1] if (isinstance(out[1], list) and len(out[1]) == 2 and out[1][0] == 3) else None
+                want = 1 if 1 in self.cells else -1
+                if napp != want:
+                    self.bad(j, "trainer_second_updater_applications", expected=want, got=napp, cells=self.cells)
             elif k in ("update", "updatesome", "apply"):
                 def body():
                     U = self.U
@@ -1044,7 +1124,7 @@ def perm_compare(case, t0, t1):
         ps1 = [dec_t(t) for _, t in s1[0]]
         if not all(closev(a, b) for a, b in zip(ps0, ps1)):
             return {"step": j, "kind": "order_dependence", "op": case["ops"][j], "a": ps0, "b": ps1}
-        if o0[0] == 0 and len(o0[1]) == 2 and len(o1[1]) == 2:
+        if o0[0] == 0 and len(o0[1]) == 2 and len(o1[1]) == 2 and o0[1][0] == 2 and o1[1][0] == 2:
             a, b = dec_t(o0[1][1]), dec_t(o1[1][1])
             if not closev(a, b) and not any(z != z for z in a + b):
                 return {"step": j, "kind": "order_dependence", "op": case["ops"][j], "a": a, "b": b}
@@ -1053,7 +1133,7 @@ def perm_compare(case, t0, t1):
 
 def is_nontrivial(case):
     kinds = {o[0] for o in case["ops"]}
-    return len(case["ops"]) >= 4 and "add" in kinds and bool(kinds & {"update", "updatesome", "apply"})
+    return len(case["ops"]) >= 4 and "add" in kinds and bool(kinds & {"update", "updatesome", "apply", "tupdate"})
 
 
 def listed(kind):
@@ -1078,7 +1158,7 @@ def run(ctx):
     cases = list(base)
     variants = []          # (index of original, index of variant)
     for idx, c in enumerate(base):
-        if c.get("stream") in ("smooth", "sharp", "history", "sharpcase") and not has_asym_red(c) and rng.random() < 0.5:
+        if c.get("stream") in ("smooth", "sharp", "history", "sharpcase", "trainer") and not has_asym_red(c) and rng.random() < 0.5:
             v = perm_variant(c, rng)
             if v is not None:
                 v = dict(v, stream=c["stream"] + "+perm")
@@ -1124,7 +1204,8 @@ def run(ctx):
         "evaluations": len(cases),
         "distinct_nontrivial": len({json.dumps(c, sort_keys=True) for c in cases if is_nontrivial(c)}),
         "rule": "seeded Updater/Accumulator operation sequences on a real LinearDense connection or a minimal Updatable "
-                "module (1-3 parameters, 5 shapes): general streams (22 operation kinds; dyadic 'sharp' flavour and decimal "
+                "module (1-3 parameters, 5 shapes): general streams (23 operation kinds, incl. CellTrainer.update() for a trainer with "
+                "0-3 cells sharing the connection's updater, a cell of a second connection and a cell without updater; dyadic 'sharp' flavour and decimal "
                 "'smooth' flavour with power kernels, mean, l2), a malformed stream (wrong part sizes, unknown names, None "
                 "limits, missing updater), long update histories (up to 40 rounds) under range-preserving dependence, sharp "
                 "cases on/beyond the limits, and order-permuted twins of half of the cases; non-trivial = >=4 ops with a "
